@@ -72,6 +72,12 @@ var propSpecs = []PropSpec{
 			cfg.Unwind = 5000
 			cfg.ConcretizeIndex = entry == "VC19_Walk"
 		}},
+	{ID: "C12", Pkgs: []string{"ers", "erc"},
+		BoundsQ:     "trees of depth <=2 with <=4 non-nil leaves over {ers.Join(2..3), ers.Wrap, fmt.Errorf(%w), errors.Join, ParsePanic, Stack.Push chain}; leaves from {nil, two sentinels, pointer error, typed error with symbolic code}; sequential and concurrent (2 adders + reader) Collector",
+		BoundsT:     "<=5 leaves",
+		Outside:     "deeper trees; custom Is/As methods on leaves; message formatting (fmt is stubbed: messages of symbolic values are not compared)",
+		Assumptions: commonAssumptions,
+		Tune:        func(cfg *Config, tier, entry string) {}},
 	{ID: "C16", Pkgs: []string{"dt"},
 		BoundsQ:     "two lists (lengths <=3 and <=1, symbolic values) + one detached element + nil handle; 1 arbitrary operation out of 11 kinds with handles chosen from every element ever returned (attached, detached, root, nil); full observation (both walks, Slice, both iterators, Len, In/Ok/Value of every handle) compared with a ring model after every step; pop iterators drained",
 		BoundsT:     "same with 2 consecutive arbitrary operations; Stack: 2 operations",
